@@ -100,4 +100,10 @@ Ascending(s) == \A a, b \in 1..Len(s) : a < b => s[a][1] < s[b][1]
 SameElementsOnce(s, t) == /\ Len(s) = Len(t)
                           /\ \A a \in 1..Len(t) : \E b \in 1..Len(s) : s[b] = t[a]
                           /\ \A a, b \in 1..Len(s) : a # b => s[a][1] # s[b][1]
+(***************************************************************************)
+(* C11 / C19: a failed or interrupted compression leaves the original file  *)
+(* next to an unfinished .gz twin; the twin is not part of the stream.      *)
+(***************************************************************************)
+HasPlainTwin(F, f) == \E j \in 1..Len(F) : SameName(F[j], f) /\ ~F[j].z
+Untwin(F) == SelectSeq(F, LAMBDA f : ~(f.z /\ HasPlainTwin(F, f)))
 =============================================================================
